@@ -490,6 +490,8 @@ impl Response {
         response: &mut Response,
         mut content_length: usize) {
 
+        // one loop iteration per line: a call per header line needs a stack frame per line
+        loop {
         let mut buffer = vec![];
         let boxed_read = cursor.read_until(b'\n', &mut buffer);
         if boxed_read.is_err() {
@@ -587,7 +589,10 @@ impl Response {
 
             response.headers.push(header);
             iteration_number += 1;
-            Response::_parse_raw_response_via_cursor(cursor, iteration_number, response, content_length);
+            // next line, with the same cursor, response and content_length
+        } else {
+            return;
+        }
         }
     }
 
